@@ -92,19 +92,22 @@ type Node struct {
 	height  map[refmodel.Hash]int32 // hash -> height on the best chain (genesis -> 0)
 	Cap     int                     // max headers per reply
 	// scripting knobs
-	DisconnectAtMsg int // close the FIRST connection when its n-th message arrives (0 = never)
-	VersionLag      int // the version message reports a height this many blocks below the node's chain (blocks found since)
-	DropAfterHeight int // close the connection right after sending the first getheaders answer that contains this height (0 = never)
-	droppedAfter    bool
-	StallAfterMsg   int              // on every connection: stop answering getheaders after the n-th message (0 = never)
-	MaxAccepts      int              // stop accepting after n connections (0 = unlimited)
-	MaxLive         int              // at most n simultaneously open connections; further dials are refused by the rig (0 = unlimited)
-	Silent          bool             // never answers getheaders (pure stall)
-	PushAfterReply  *wire.MsgHeaders // unsolicited headers message pushed right after the first getheaders answer of every connection
-	PushInfo        string
-	PushSeq         []*wire.MsgHeaders // further unsolicited headers messages pushed after PushAfterReply, one after the other
-	PushSeqInfo     []string
-	Services        wire.ServiceFlag
+	DisconnectAtMsg   int // close the FIRST connection when its n-th message arrives (0 = never)
+	RepentAfterHeight int // after the first getheaders answer that contains this height the node switches to RepentChain (it follows the honest chain from then on)
+	RepentChain       []refmodel.Hdr
+	MarkHash          refmodel.Hash // a getheaders answer that contains the header with this hash is logged with " [marked]"
+	VersionLag        int           // the version message reports a height this many blocks below the node's chain (blocks found since)
+	DropAfterHeight   int           // close the connection right after sending the first getheaders answer that contains this height (0 = never)
+	droppedAfter      bool
+	StallAfterMsg     int              // on every connection: stop answering getheaders after the n-th message (0 = never)
+	MaxAccepts        int              // stop accepting after n connections (0 = unlimited)
+	MaxLive           int              // at most n simultaneously open connections; further dials are refused by the rig (0 = unlimited)
+	Silent            bool             // never answers getheaders (pure stall)
+	PushAfterReply    *wire.MsgHeaders // unsolicited headers message pushed right after the first getheaders answer of every connection
+	PushInfo          string
+	PushSeq           []*wire.MsgHeaders // further unsolicited headers messages pushed after PushAfterReply, one after the other
+	PushSeqInfo       []string
+	Services          wire.ServiceFlag
 	// state
 	ln       net.Listener
 	conns    []*Conn
@@ -475,6 +478,10 @@ func (c *Conn) loop() {
 				return
 			}
 			n.mu.Lock()
+			if h := int32(n.RepentAfterHeight); h > 0 && c.lastStart < h && h <= c.lastEnd && int(h) <= len(n.chain) {
+				n.setChainLocked(n.RepentChain)
+				n.RepentAfterHeight = 0
+			}
 			dropNow := n.DropAfterHeight > 0 && !n.droppedAfter && c.lastStart < int32(n.DropAfterHeight) && int32(n.DropAfterHeight) <= c.lastEnd
 			if dropNow {
 				n.droppedAfter = true
@@ -531,8 +538,12 @@ func (c *Conn) answerGetHeaders(m *wire.MsgGetHeaders) error {
 		end = start + int32(n.Cap)
 	}
 	reply := wire.NewMsgHeaders()
+	marked := ""
 	for h := start + 1; h <= end; h++ {
 		reply.Headers = append(reply.Headers, WireHeader(n.chain[h-1]))
+		if n.MarkHash != (refmodel.Hash{}) && n.chain[h-1].HashOf() == n.MarkHash {
+			marked = " [marked]"
+		}
 	}
 	n.mu.Unlock()
 	c.lastStart, c.lastEnd = start, end
@@ -542,7 +553,7 @@ func (c *Conn) answerGetHeaders(m *wire.MsgGetHeaders) error {
 	if end > atomic.LoadInt32(&c.peerKnown) && len(reply.Headers) > 0 {
 		atomic.StoreInt32(&c.peerKnown, end)
 	}
-	return c.write(reply, fmt.Sprintf("%d headers %d..%d", len(reply.Headers), start+1, end))
+	return c.write(reply, fmt.Sprintf("%d headers %d..%d%s", len(reply.Headers), start+1, end, marked))
 }
 
 // WireHeader converts a model header to the wire type.
